@@ -333,7 +333,7 @@ def diff_streams(cases, impl, model):
         c = cases[i] if i < len(cases) else "<none>"
         a = impl[i] if i < len(impl) else "<missing>"
         b = model[i] if i < len(model) else "<missing>"
-        if a != b:
+        if a != b and b != "no-model":
             res.append((i, c, a, b))
     return res
 
@@ -405,8 +405,10 @@ def standard_flow(ctx, spec):
         if i >= len(impl):
             break
         r = spec["oracle_req"](c, impl[i]) if spec.get("oracle_req") else None
-        if r is not None:
-            reqs.append(r)
+        if r is None:
+            continue
+        for one in (r if isinstance(r, (list, tuple)) else [r]):   # several oracle requests per case are allowed
+            reqs.append(one)
             idx.append(i)
     oracle_fail = []
     if reqs and okd:
